@@ -138,3 +138,68 @@ func TestEmptyStringMembers(t *testing.T) {
 		runCase(t, g, qs, recEmpty, func(q *request) bool { return q.Server == 1 })
 	}
 }
+
+var recPort0All = ev.New("C09", "port0-all-representations-regression",
+	"fixed cases: one route with a port criterion in each of the three representations (single port; 3 ranges; 17 ranges = bit set), source side and destination side, plain and inverted, "+
+		"tcp and udp, IP target and domain target; requests with port 0, 1, a listed port, a port next to it and 65535; oracle: \"all ports except those listed\" - port 0 can not be listed, so an inverted criterion is met by port 0 and a plain one is not. "+
+		"Non-trivial: the request carries port 0 on the side of the criterion")
+
+// TestPort0AllRepresentations: the port-0 question of TestPort0Bitmap for all three representations,
+// both target kinds and both invert settings.
+func TestPort0AllRepresentations(t *testing.T) {
+	reprs := map[string][]int{"single": {1000}, "ranges": {1000, 2000, 3000}, "bitmap": nil}
+	for i := 0; i < 17; i++ {
+		reprs["bitmap"] = append(reprs["bitmap"], 1000+10*i)
+	}
+	for _, name := range []string{"single", "ranges", "bitmap"} {
+		var parts []string
+		pm := &portModel{}
+		for _, p := range reprs[name] {
+			parts = append(parts, fmt.Sprint(p))
+			pm.set[p] = true
+		}
+		pm.finish()
+		if pm.repr() != name {
+			t.Fatalf("harness: %v is not the %s representation", reprs[name], name)
+		}
+		ranges := strings.Join(parts, ",")
+		for _, side := range []string{"to", "from"} {
+			for _, inv := range []bool{false, true} {
+				g := &genCase{w: &world{servers: []string{"s0"}, tcp: map[string]bool{"c0": true, "c1": true}, udp: map[string]bool{"c0": true, "c1": true},
+					dsets: map[string]*dsModel{}, psets: map[string]*psModel{}, defTCP: "client:c0", defUDP: "client:c0"},
+					files: map[string][]byte{}, labels: map[string]bool{}}
+				g.cfg.DefaultTCPClientName, g.cfg.DefaultUDPClientName = "c0", "c0"
+				g.cfg.Routes = []router.RouteConfig{{Name: "ports", Client: "c1"}}
+				rm := routeModel{rc: &g.cfg.Routes[0]}
+				if side == "to" {
+					g.cfg.Routes[0].ToPortRanges, g.cfg.Routes[0].InvertToPorts, rm.toPort = ranges, inv, pm
+				} else {
+					g.cfg.Routes[0].FromPortRanges, g.cfg.Routes[0].InvertFromPorts, rm.fromPort = ranges, inv, pm
+				}
+				g.w.routes = []routeModel{rm}
+				var qs []request
+				for _, udp := range []bool{false, true} {
+					for _, isIP := range []bool{true, false} {
+						for _, port := range []uint16{0, 1, 1000, 1001, 65535} {
+							q := request{UDP: udp, Src: netip.MustParseAddrPort("192.0.2.1:40000"), IsIP: isIP, Port: 443}
+							if isIP {
+								q.IP = netip.MustParseAddr("192.0.2.2")
+							} else {
+								q.Domain = "a.com"
+							}
+							if side == "to" {
+								q.Port = port
+							} else {
+								q.Src = netip.AddrPortFrom(q.Src.Addr(), port)
+							}
+							qs = append(qs, q)
+						}
+					}
+				}
+				runCase(t, g, qs, recPort0All, func(q *request) bool {
+					return side == "to" && q.Port == 0 || side == "from" && q.Src.Port() == 0
+				})
+			}
+		}
+	}
+}
